@@ -493,6 +493,7 @@ def run_case(case, repo_checks=True):
     sched.step_hooks.append(poll_done)
 
     R.cancel_log = []
+    R.rejects = []
 
     def canceller(c0):
         c = dict(c0)
@@ -589,9 +590,42 @@ def run_case(case, repo_checks=True):
         class UserExc(Exception):
             pass
 
+        def rejected_call(spec):
+            # a call the manager must reject at submit time (documented
+            # ValueError); the caller catches it and carries on
+            arn = ('arn:aws:s3-object-lambda:us-west-2:123456789012:'
+                   'accesspoint/my-ap')
+            bucket = arn if spec['how'] == 'arn' else BUCKET
+            extra = {'NoSuchArgument': 'x'} if spec['how'] == 'badarg' else {}
+            api('reject.begin', op=spec['type'], how=spec['how'])
+            out = {'spec': spec, 'exc': None, 'future': None}
+            try:
+                if spec['type'] == 'upload':
+                    out['future'] = mgr.upload(io.BytesIO(b'x'), bucket, 'rk',
+                                               extra_args=extra)
+                elif spec['type'] == 'download':
+                    out['future'] = mgr.download(bucket, 'rk', io.BytesIO(),
+                                                 extra_args=extra)
+                elif spec['type'] == 'copy':
+                    out['future'] = mgr.copy(
+                        {'Bucket': BUCKET, 'Key': 'rk'}, bucket, 'rk2',
+                        extra_args=extra)
+                else:
+                    out['future'] = mgr.delete(bucket, 'rk', extra_args=extra)
+            except SchedAbort:
+                raise
+            except KeyboardInterrupt:
+                raise
+            except Exception as e:
+                out['exc'] = e
+            R.rejects.append(out)
+            api('reject.end', op=spec['type'])
+
         def body():
             for rec in R.transfers:
                 submit(mgr, rec, src_client)
+            for spec in case.get('rejects') or []:
+                rejected_call(spec)
             if end.get('wait_results'):
                 for rec in R.transfers:
                     if rec['future'] is not None:
